@@ -77,10 +77,40 @@ def _setup(case, scratch, reach_names):
         materialise(base, [[tree["name"], tree["files"][0][1], tree["files"][0][2]]])
     else:
         materialise(root, tree["files"], tree["dirs"])
-    reach = env.Reach()
-    reach.start(_reach_funcs(reach_names))
     out = os.path.join(scratch, "out")
     os.makedirs(out, exist_ok=True)
+    if case.get("remake") and not tree["single"]:
+        # the same path was already turned into a torrent earlier in this process, then the tree changed on disk
+        route = case["route"] if case["route"] in drive.ROUTE_VERSION else "TorrentFile"
+        drive.create(route, root, os.path.join(out, "earlier.torrent"), piece_length=case.get("pl"), progress=0,
+                     align=case.get("remake_align", False))
+        import random
+        rng = random.Random(case["remake"])
+        files = sorted(f[0] for f in tree["files"])
+        from ..harness import content
+        for _ in range(rng.choice([1, 1, 2])):
+            kind = rng.choice(["add-nested", "add-nested", "add-top", "delete", "grow", "shrink"])
+            victim = os.path.join(root, rng.choice(files))
+            if kind == "add-nested":
+                sub = os.path.dirname(rng.choice(files)) or rng.choice(["newdir", "newdir/deep"])
+                p = os.path.join(root, sub, "zz-added-" + str(rng.randrange(100)))
+                os.makedirs(os.path.dirname(p), exist_ok=True)
+                with open(p, "wb") as fd:
+                    fd.write(content(rng.randrange(1 << 20), rng.choice([1, 77, 16385, 40000])))
+            elif kind == "add-top":
+                with open(os.path.join(root, "0-added-" + str(rng.randrange(100))), "wb") as fd:
+                    fd.write(content(rng.randrange(1 << 20), rng.choice([0, 5, 20000])))
+            elif kind == "delete" and len(files) > 1 and os.path.exists(victim):
+                os.remove(victim)
+                files.remove(os.path.relpath(victim, root))
+            elif kind == "grow" and os.path.exists(victim):
+                with open(victim, "ab") as fd:
+                    fd.write(content(rng.randrange(1 << 20), rng.choice([1, 16384, 30001])))
+            elif kind == "shrink" and os.path.exists(victim):
+                with open(victim, "r+b") as fd:
+                    fd.truncate(os.path.getsize(victim) // 2)
+    reach = env.Reach()
+    reach.start(_reach_funcs(reach_names))
     return root, out, reach
 
 
@@ -93,7 +123,7 @@ def _gen_common(rng, tier, routes, **treekw):
         "tree": tree, "pl_exp": exp, "pl": None if auto else _pl_form(rng, exp),
         "route": rng.choice(routes), "progress": rng.choice([0, 1, 2]),
         "enum": rng.choice(["sorted", "shuffle", "reverse"]), "enum_seed": rng.randrange(1000),
-        "prelude": gen_prelude(rng),
+        "prelude": gen_prelude(rng), "remake": rng.randrange(1, 1 << 30) if rng.random() < 0.2 else None,
     }
 
 
@@ -114,7 +144,8 @@ class C01:
             "CLI create) x progress mode x directory enumeration order; non-trivial when a size is not a multiple "
             "of 16 KiB, a piece straddles >= 2 files, or an empty file is present; distinct by (layout, size "
             "classes, #pieces straddling 2 / >=3 files (capped), trailing-empty, pl exponent, route, progress)")
-    required = ("pieces_compared", "cases_straddling", "cases_with_empty", "cases_cli", "cases_lib")
+    required = ("pieces_compared", "cases_straddling", "cases_with_empty", "cases_cli", "cases_lib",
+                "cases_recreated_after_mutation_in_process")
     assumptions = ("reference BEP 3 hashing (ref/hashing.py) is correct",
                    "payload trees are those generated (<= 41 files, depth <= 4, no symlinks)")
 
@@ -145,6 +176,8 @@ class C01:
         counters["cases_straddling3"] = int(three > 0)
         counters["cases_with_empty"] = int(has_empty)
         counters["cases_cli" if case["route"].startswith("cli") else "cases_lib"] = 1
+        if case.get("remake") and not case["tree"]["single"]:
+            counters["cases_recreated_after_mutation_in_process"] = 1
         nontrivial = any(s % 16384 for s in sizes) or two > 0 or has_empty
         sig = [gen.tree_sig(case["tree"], pl), min(two, 3), min(three, 2), sizes[-1] == 0, case["pl_exp"],
                case["route"], case["progress"], case["pl"] is None]
